@@ -25,8 +25,11 @@
 //          (the case format of harness/h_lambda.cc: scheme reg|dyn|gauss|bin, comp ind|team|wta|mv, prog x0|x1|x2|r<seed>,
 //          label i:<class>|d:<hex64>, inputs v|d:<hex64>)  a trained model of that kind is built on the training rows,
 //          saved with serialize::save, reloaded with serialize::lambda::load, saved again
-//          -> OK | saved | loaded 1|0|EXC.. | hex of the text | hex of the text saved by the reloaded model | n (prediction-original prediction-reloaded)*
-//             over the queries; prediction = value token (regression) or <label>/<hex64 sureness>
+//          an optional last token L<style> selects how the class labels look (inner / leading / trailing blanks, tabs,
+//          digits only, blank-only, empty)
+//          -> OK | saved | loaded 1|0|EXC.. | hex of the text | hex of the text saved by the reloaded model
+//             | n (prediction-original prediction-reloaded name-original name-reloaded)*
+//             over the queries; prediction = value token (regression) or <label>/<hex64 sureness>; name = hex of name(prediction)
 //   SSET 2 / SSET 3 = the symbol sets of the second problem objects
 // types: H F MEP GA DE TEAM POPMEP POPGA POPDE POPTEAM SUMMEP SUMGA SUMDE DIST MAT
 //        DISTX = DIST fed with finite values whose squares overflow (non-finite second moment)
@@ -344,8 +347,15 @@ i_mep gen(tag<i_mep>, problem &p, unsigned steps)
 {
   i_mep a(p);
   for (unsigned s(0); s < steps; ++s)
-    switch (random::between(0, 6))
+    switch (random::between(0, 10))
     {
+    // block operations: the entry locus of the result is, in general, not {0,0}
+    case 6:
+      a = a.get_block({random::sup(static_cast<index_t>(a.size())), random::sup(static_cast<category_t>(a.categories()))});
+      break;
+    case 7: a = a.destroy_block(random::sup(static_cast<index_t>(a.size())), p.sset); break;
+    case 8: a = a.replace(gene(p.sset.roulette_terminal(a.category()))); break;
+    case 9: a = a.cse(); break;
     case 0: a.mutation(0.3, p); break;
     case 1:
     {
@@ -429,6 +439,7 @@ team<i_mep> gen(tag<team<i_mep>>, problem &p, unsigned steps)
     default:
       for (auto &i : a.individuals_)
         if (random::boolean(0.3)) { perturb(i); i.inc_age(); }
+        else if (random::boolean(0.4)) i = gen(tag<i_mep>(), p, 6);   // a member reached by its own history
       a.signature_.clear();
       break;
     }
@@ -441,16 +452,17 @@ template<class T> population<T> gen(tag<population<T>>, problem &p, unsigned ste
   p.env.min_individuals = 1;
   population<T> a(p);
   for (unsigned s(0); s < steps; ++s)
-    switch (random::between(0, 6))
+    switch (random::between(0, 9))
     {
     case 0:
-      if (a.layers() < 4) a.add_layer();
+      if (a.layers() < 5) a.add_layer();
       break;
     case 1: a.inc_age(); break;
     case 2:
     {
+      // the first layer keeps one individual, the others may be emptied
       const auto l(random::sup(a.layers()));
-      if (a.individuals(l) > 1) a.pop_from_layer(l);
+      if (a.individuals(l) > (l ? 0u : 1u)) a.pop_from_layer(l);
       break;
     }
     case 3:
@@ -465,8 +477,27 @@ template<class T> population<T> gen(tag<population<T>>, problem &p, unsigned ste
       a.add_to_layer(l, gen(tag<T>(), p, 2));
       break;
     }
+    case 5:
+      if (a.layers() > 1) a.remove_layer(random::between(1u, a.layers()));
+      break;
+    case 6:
+      // an intermediate or top layer loses all its individuals (allowed stays > 0)
+      if (a.layers() > 1)
+      {
+        const auto l(random::between(1u, a.layers()));
+        while (a.individuals(l)) a.pop_from_layer(l);
+      }
+      break;
+    case 7:
+    {
+      // a member reached by its own operator history
+      const auto l(random::sup(a.layers()));
+      if (a.individuals(l))
+        a[{l, random::sup(a.individuals(l))}] = gen(tag<T>(), p, 6);
+      break;
+    }
     default:
-      if (a.layers() > 1) a.remove_layer(random::sup(a.layers()));
+      if (a.layers() < 5) a.add_layer();
       break;
     }
   return a;
@@ -640,7 +671,7 @@ template<class T> void run(const std::vector<std::string> &w, problem &p, proble
     T xc(x);
     clear_sigs(xc);
     std::cout << "OK | " << d0 << " | " << to_hex(s0) << " | " << ret << " | " << dump_s(y) << " | "
-              << to_hex(save_s(y)) << " | " << g0 << ' ' << (valid(y) ? sig(y) : std::string("invalid"))
+              << to_hex(save_s(y)) << " | " << g0 << ' ' << (ret && valid(y) ? sig(y) : std::string("invalid"))
               << " | " << valid(y) << " | " << dump_s(xc) << " | " << save_ok << '\n';
   }
   else
@@ -886,8 +917,10 @@ void model_case(const std::vector<std::string> &progs, const std::vector<datafra
     text2 = s2.str();
   }
   std::cout << "OK | " << saved << " | " << loaded << " | " << to_hex(text) << " | " << to_hex(text2) << " | " << query.size();
+  // the label STRING of the prediction too (class names travel with the model)
   for (const auto &e : query)
-    std::cout << ' ' << predict_src(*m, e, cls) << ' ' << (l2 ? predict_src(*l2, e, cls) : std::string("-"));
+    std::cout << ' ' << predict_src(*m, e, cls) << ' ' << (l2 ? predict_src(*l2, e, cls) : std::string("-"))
+              << ' ' << to_hex(m->name((*m)(e))) << ' ' << (l2 ? to_hex(l2->name((*l2)(e))) : std::string("?"));
   std::cout << '\n';
 }
 
@@ -909,7 +942,26 @@ void run_model(const std::vector<std::string> &w)
   dataframe &d(SP->data());
   d.clear();
   d.classes_map_.clear();
-  for (long c(0); c < classes; ++c) d.classes_map_["c" + std::to_string(c)] = static_cast<class_t>(c);
+  // optional last token L<style>: how the class labels look (they are saved one per line)
+  const int style(w.back().size() >= 2 && w.back()[0] == 'L' ? std::stoi(w.back().substr(1)) : 0);
+  for (long c(0); c < classes; ++c)
+  {
+    const std::string k(std::to_string(c));
+    std::string name("c" + k);
+    switch (style)
+    {
+    case 1: name = "Iris setosa " + k; break;                        // inner blanks
+    case 2: name = c ? "  lead " + k : "first"; break;               // leading blanks (not on the first label)
+    case 3: name = "trail" + k + "  "; break;                        // trailing blanks
+    case 4: name = "tab\there" + k + "\tx"; break;                   // tabs
+    case 5: name = std::to_string(c * 7 + 10); break;                // digits only
+    case 6: name = c ? "1" + k + " 2" + k + " 3" : "0 0"; break;     // digits with blanks
+    case 7: name = c ? std::string(static_cast<std::size_t>(c), ' ') : "x"; break;  // blank-only, empty looking
+    case 8: name = c == 1 ? "" : "n" + k; break;                     // one empty label
+    default: break;
+    }
+    d.classes_map_[name] = static_cast<class_t>(c);
+  }
   for (long n(std::stol(next())); n > 0; --n)
   {
     dataframe::example e;
